@@ -19,7 +19,8 @@ Theorem C14_success_needs_approval :
      exists k, In (OCb k (a_user st') RSuccess) outs /\ cb_for m k = true /\
        (k = CbPublickey -> exists u s alg kb sg blob,
            m = Msg50 u s (BPublickey true alg kb sg) /\ e_keyok e = true /\
-           session_blob sid u s alg (e_bits e) = Ok blob /\ sig_ok (e_bits e) blob sg = true)) /\
+           session_blob sid u s alg (e_bits e) = Ok blob /\ sig_ok (e_bits e) blob sg = VTrue /\
+        beq (sig_alg sg) (strip_cert alg) = true)) /\
     (forall u s b, m = Msg50 u s b -> a_user st' = Some u) /\
     In OSuccess outs /\ a_authed st' = true.
 Proof. exact success_needs_approval. Qed.
@@ -59,13 +60,13 @@ Print Assumptions C14_blob_injective.
    session id, username, service or algorithm differs, never authenticates -- under the symbolic
    signature premise that a signature verifies for at most one message per key *)
 Theorem C14_replay_never_auths :
-  forall (sig_ok : list Z -> list Z -> list Z -> bool),
-    (forall k b1 b2 sg, sig_ok k b1 sg = true -> sig_ok k b2 sg = true -> b1 = b2) ->
+  forall (sig_ok : list Z -> list Z -> list Z -> vres),
+    (forall k b1 b2 sg, sig_ok k b1 sg = VTrue -> sig_ok k b2 sg = VTrue -> b1 = b2) ->
   forall sid1 u1 s1 a1 sid2 u2 s2 a2 bits kb sg b1 st e st' outs,
     bytes_ok sid1 = true -> bytes_ok u1 = true -> bytes_ok s1 = true -> bytes_ok a1 = true ->
     bytes_ok sid2 = true -> bytes_ok u2 = true -> bytes_ok s2 = true -> bytes_ok a2 = true ->
     bytes_ok bits = true ->
-    session_blob sid1 u1 s1 a1 bits = Ok b1 -> sig_ok bits b1 sg = true ->
+    session_blob sid1 u1 s1 a1 bits = Ok b1 -> sig_ok bits b1 sg = VTrue ->
     (sid1, u1, s1, a1) <> (sid2, u2, s2, a2) ->
     e_bits e = bits -> a_authed st = false ->
     auth_step sig_ok sid2 st (Msg50 u2 s2 (BPublickey true a2 kb sg)) e = (st', outs) ->
@@ -80,9 +81,17 @@ Example C14_example_success :
   exists blob, session_blob sid [97] s_connection [116] bits = Ok blob /\
   let e := MkEnv RSuccess false true bits true 1 true false false in
   let '(st', outs) := auth_step toy_sig_ok sid init
-                        (Msg50 [97] s_connection (BPublickey true [116] [107] (toy_mac bits blob))) e in
+                        (Msg50 [97] s_connection (BPublickey true [116] [107] (toy_sign [116] bits blob))) e in
   a_authed st' = true /\ In OSuccess outs.
 Proof. eexists. split; [vm_compute; reflexivity|]. vm_compute. split; [reflexivity|tauto]. Qed.
+
+(* a verify call that raises ends the connection without authenticating *)
+Example C14_example_verify_raises :
+  let e := MkEnv RSuccess false true [75;107] true 1 true false false in
+  let '(st', outs) := auth_step toy_sig_ok [1;2;3] init
+      (Msg50 [97] s_connection (BPublickey true [116] [107] [0;0;0;1;116;0;0;0;5;82;65;73;83;69])) e in
+  a_authed st' = false /\ a_active st' = false /\ existsb is_success outs = false.
+Proof. vm_compute. repeat split. Qed.
 
 Example C14_example_gss_rejected :
   let e := MkEnv RFailed true false [] true 2 true true false in
